@@ -5,14 +5,27 @@ import PetgraphModel.Oracle.Dist
 import PetgraphModel.Oracle.C11Judge
 import PetgraphModel.Model.C11Paths
 import PetgraphModel.Model.C11Checks
+import PetgraphModel.Model.C11W6
 /-
 C11 driver.  Requests (after a `graph …` line), answers in abstract node ids:
 
-  bf <s>          => ok a:d:p,…   (d = `i` for +∞, p = `x` for None)  | err
-  fnc <s>         => some a,b,c|<bf>  /  none|<bf>      (<bf> = ok | err, bellman_ford on the same input)
-  spfa <ty> <s>   => ok a:d:p,…   (d = `i` for K::max())              | err      ty = i32 | i64 | f64
+  bf <s>          => ok a:d:p,…   (d = `i` for +∞, p = `x` for None)  | err      (`bf32`: f32 edge weights)
+  fnc <s>         => some a,b,c|<bf>  /  none|<bf>      (<bf> = ok | err, bellman_ford on the same input; `fnc32`)
+  spfa <ty> <s>   => ok a:d:p,…   (d = `i` for K::max())              | err      ty = any BoundedMeasure type
   fw <ty>         => ok u.v:d,…                                        | err
   fwp <ty>        => ok u.v:d:p,…                                      | err
+
+and, independent of the graph (wave 6: the rarely used public surface of the anchored files),
+
+  consts <ty>       => max=<num> min=<num> zero=<num>     BoundedMeasure::max / min, Default, against `measOf ty`
+  oadd <ty> <a> <b> => <num>|inf|-inf <true|false>         BoundedMeasure::overflowing_add against `Meas.oadd`
+  law <name> …      => ok | VIOLATED <why>                 a law the harness checked against the implementation itself
+
+A case may contain several `graph` lines (sections: the storage type, then a graph adaptor over it); each
+resets the view.  A `graph` line with `quirk=d23` / `quirk=d6` is the view of an adaptor whose edge
+references are known to report wrong endpoints (open findings D23, D6): an answer the judge rejects is
+classified `KNOWN` only if the judge accepts it for `effView` (the graph those references describe);
+everything else stays `SPECFAIL`.
 
 Per line: first the run-time checks of the hypotheses of the model theorems (`Model/C11Checks.lean`;
 `Theorems/C11.lean`, section "run-time checks of the hypotheses", proves each Boolean sound): the
@@ -32,6 +45,8 @@ open PetgraphModel PetgraphModel.Oracle PetgraphModel.C11M PetgraphModel.C11J
 structure DState where
   v : View := default
   ok : Bool := false
+  /-- "", "d23" or "d6": the open finding the adaptor of this section exposes -/
+  quirk : String := ""
 
 /-- the view's out-lists describe exactly the arcs of the abstract graph (targets and costs, as
 multisets per node) -/
@@ -48,7 +63,22 @@ def viewArcsOkB (v : View) : Bool :=
       sortPairs ((v.g.arcs.filter fun x => x.1 == a).map fun x => (x.2.1, x.2.2))
 
 def measOf (ty : String) : Meas :=
-  if ty == "i32" then Meas.i32 else if ty == "i64" then Meas.i64 else Meas.f64
+  if ty == "i32" then Meas.i32 else if ty == "i64" then Meas.i64
+  else if ty == "i8" then Meas.ofBits true 8 else if ty == "i16" then Meas.ofBits true 16
+  else if ty == "i128" then Meas.ofBits true 128 else if ty == "isize" then Meas.ofBits true 64
+  else if ty == "u8" then Meas.ofBits false 8 else if ty == "u16" then Meas.ofBits false 16
+  else if ty == "u32" then Meas.ofBits false 32 else if ty == "u64" then Meas.ofBits false 64
+  else if ty == "u128" then Meas.ofBits false 128 else if ty == "usize" then Meas.ofBits false 64
+  else if ty == "f32" then Meas.f32 else Meas.f64
+
+def unsignedTy (ty : String) : Bool := ["u8", "u16", "u32", "u64", "u128", "usize"].contains ty
+
+def floatTy (ty : String) : Bool := ty == "f32" || ty == "f64"
+
+/-- the cost type the width hypotheses are checked for: the type itself, or — for an unsigned type, whose
+`min() = 0` can never satisfy `min() ≤ −L·Wm` — its signed twin; with non-negative costs (`nonnegB`, checked
+alongside) the models do not depend on `min()` (`C11_spfa_min_irrelevant`, `C11_floyd_min_irrelevant`) -/
+def proofMeas (ty : String) : Meas := if unsignedTy ty then (measOf ty).twin else measOf ty
 
 def showDist : Option Int → String
   | none => "i"
@@ -160,7 +190,8 @@ def prevOf (items : List Item) (u w : Nat) : Option Nat :=
 
 /-- the range the costs must respect for the cost type `ty`: `f64` is used as an integer type, so
 beyond `max()`/`min()` of the type every value must stay within the exactly represented `±2^53` -/
-def rangeOf (ty : String) : Meas := if ty == "f64" then Meas.exactF64 else measOf ty
+def rangeOf (ty : String) : Meas :=
+  if ty == "f64" then Meas.exactF64 else if ty == "f32" then Meas.exactF32 else proofMeas ty
 
 def caseParams (v : View) : String :=
   s!"|V|={v.g.nodes.length} node_bound={v.nb} M={maxOutLen v} Wm={maxAbsW v.g}"
@@ -177,24 +208,98 @@ def preFloat (d : DState) (s : Nat) : Option String :=
     if fitBfB d.v then none
     else some s!"SPECFAIL generator left the proved range: bellman_ford on f64 is exact only while {bfLenC d.v}*Wm < 2^53 ({caseParams d.v})"
 
+/-- `bf32`, `fnc32`: as `preFloat`, with the exact range `±2^24` of `f32` -/
+def preFloat32 (d : DState) (s : Nat) : Option String :=
+  (okGraph d).or <| (srcCheck d.v s).or <|
+    if fitBf32B d.v then none
+    else some s!"SPECFAIL generator left the proved range: bellman_ford on f32 is exact only while {bfLenC d.v}*Wm < 2^24 ({caseParams d.v})"
+
+/-- an unsigned cost type is used with non-negative costs only -/
+def signOk (ty : String) (v : View) : Bool := !unsignedTy ty || nonnegB v.g
+
 /-- `spfa <ty>`: `s ∈ nodes`, `|V| ≤ node_bound`, `L·Wm < max()`, `min() ≤ −L·Wm` with
-`L = |V|·node_bound·M + |V|` -/
+`L = |V|·node_bound·M + |V|` (unsigned `ty`: for the signed twin, and all costs non-negative) -/
 def preSpfa (d : DState) (ty : String) (s : Nat) : Option String :=
   (okGraph d).or <| (srcCheck d.v s).or <|
     if !nbB d.v then some s!"SPECFAIL side condition node_count <= node_bound does not hold: {caseParams d.v}"
-    else if fitSpfaB (measOf ty) d.v && fitSpfaB (rangeOf ty) d.v then none
-    else some s!"SPECFAIL generator left the proved range: spfa::<{ty}> is proved for L*Wm < max() (f64: < 2^53), L = {spfaLenC d.v} ({caseParams d.v})"
+    else if fitSpfaB (proofMeas ty) d.v && fitSpfaB (rangeOf ty) d.v && signOk ty d.v then none
+    else some s!"SPECFAIL generator left the proved range: spfa::<{ty}> is proved for L*Wm < max() (f64: < 2^53, f32: < 2^24; unsigned: costs >= 0), L = {spfaLenC d.v} ({caseParams d.v})"
 
-/-- `fw <ty>`, `fwp <ty>`: `2·|V|·Wm < max()`, `min() ≤ −2·|V|·Wm` -/
+/-- `fw <ty>`, `fwp <ty>`: `2·|V|·Wm < max()`, `min() ≤ −2·|V|·Wm` (unsigned `ty`: as for spfa) -/
 def preFw (d : DState) (ty : String) : Option String :=
   (okGraph d).or <|
-    if fitFloydB (measOf ty) d.v && fitFloydB (rangeOf ty) d.v then none
-    else some s!"SPECFAIL generator left the proved range: floyd_warshall::<{ty}> is proved for 2*|V|*Wm < max() (f64: < 2^53) ({caseParams d.v})"
+    if fitFloydB (proofMeas ty) d.v && fitFloydB (rangeOf ty) d.v && signOk ty d.v then none
+    else some s!"SPECFAIL generator left the proved range: floyd_warshall::<{ty}> is proved for 2*|V|*Wm < max() (f64: < 2^53, f32: < 2^24; unsigned: costs >= 0) ({caseParams d.v})"
 
 def verdict (spec : Option String) (model impl : String) : String :=
   match spec with
   | some why => s!"SPECFAIL {why}"
   | none => cmpExact model impl
+
+/-- `UndirectedAdaptor::edges` chains the in- and the out-list: a self-loop is listed twice (harmless for the
+algorithms; `quirk=dup` marks such a view when nothing else is wrong with it, `quirk=d23` implies it) -/
+def loopsTwice (q : String) : Bool := q == "d23" || q == "dup"
+
+/-- the `quirk=` word of a `graph` line -/
+def quirkOf (req : List String) : String := (field? req "quirk").getD ""
+
+/-- the open finding behind a quirk -/
+def findingOf (q : String) : String :=
+  if q == "d6" then "D6 MatrixGraph::edges_directed(_, Incoming) reports swapped endpoints (seen through Reversed): the answer is the right one for the graph those edge references describe"
+  else "D23 UndirectedAdaptor::edges keeps the orientation of incoming edges: the answer is the right one for the graph those edge references describe"
+
+/-- verdict of a single-source request.  No quirk: spec verdict, then exact comparison with the model on the
+view.  Under a quirk the implementation is known to walk `effView`: an accepted answer is compared with the
+model on `effView`; a rejected one is `KNOWN` iff the same judge accepts it for `effView`'s graph. -/
+def verdictQ (d : DState) (judge : MGraph → Option String) (model : View → String) (impl : String) : String :=
+  if d.quirk == "" || d.quirk == "dup" then verdict (judge d.v.g) (model d.v) impl
+  else
+    let ve := effView d.quirk d.v
+    if !(wfB ve.g && viewArcsB ve) then
+      "SPECFAIL side condition ViewArcs / WellFormed does not hold for the effective view of the adaptor"
+    else match judge d.v.g with
+    | none => cmpExact (model ve) impl
+    | some why =>
+      match judge ve.g with
+      | none => s!"KNOWN {findingOf d.quirk}"
+      | some _ => s!"SPECFAIL {why}"
+
+/-! ### numbers of the `consts` / `oadd` lines: a decimal integer or `MpE` = M·2^E -/
+
+def parseNum (s : String) : Option Int :=
+  match s.splitOn "p" with
+  | [m] => m.toInt?
+  | [m, e] => match m.toInt?, e.toNat? with
+    | some m, some e => some (m * (2 : Int) ^ e)
+    | _, _ => none
+  | _ => none
+
+def wordField (ws : List String) (k : String) : Option String :=
+  ws.findSome? fun w => if w.startsWith (k ++ "=") then some (w.drop (k.length + 1)).toString else none
+
+/-- `consts <ty>` -/
+def judgeConsts (ty impl : String) : String :=
+  let B := measOf ty
+  let ws := impl.splitOn " "
+  match (wordField ws "max").bind parseNum, (wordField ws "min").bind parseNum, (wordField ws "zero").bind parseNum with
+  | some mx, some mn, some z =>
+    if mx == B.max && mn == B.min && z == 0 then "ok"
+    else s!"SPECFAIL BoundedMeasure for {ty}: max()={mx} min()={mn} default()={z}, expected {B.max} {B.min} 0"
+  | _, _, _ => s!"SPECFAIL unparsable answer {impl}"
+
+/-- `oadd <ty> <a> <b>`: the overflow flag always; the value whenever it is determined (integer types: the
+wrapped sum; float types: the exact sum when there is no overflow — the harness picks operands whose sum is
+representable) -/
+def judgeOadd (ty a b impl : String) : String :=
+  match parseNum a, parseNum b, impl.splitOn " " with
+  | some x, some y, [r, f] =>
+    let e := (measOf ty).oadd x y
+    if f != toString e.2 then
+      s!"SPECFAIL {ty}::overflowing_add({a}, {b}) reports overflow={f}, the sum {x + y} {if e.2 then "is outside" else "is inside"} [min(), max()]"
+    else if floatTy ty && e.2 then "ok"
+    else if parseNum r == some e.1 then "ok"
+    else s!"SPECFAIL {ty}::overflowing_add({a}, {b}) = {r}, expected {e.1}"
+  | _, _, _ => s!"SPECFAIL unparsable oadd line {a} {b} {impl}"
 
 /-- single-source answer (`bf`, `spfa`) -/
 def judgeSS (g : MGraph) (s : Nat) (impl : String) : Option String :=
@@ -220,6 +325,21 @@ def judgeAP (g : MGraph) (withPrev : Bool) (impl : String) : Option String :=
         | some why => some why
         | none => if withPrev then judgeFwPrev g (entryOf items) (prevOf items) else none
 
+/-- `fnc <s>` / `fnc32 <s>` once the pre-check passed -/
+def answerFnc (d : DState) (s : Nat) (impl : String) : String :=
+  match impl.splitOn "|" with
+  | [ans, bf] =>
+    let parsed : Option (Option (List Nat)) :=
+      if ans == "none" then some none
+      else if ans.startsWith "some " then some (some (parseNats (ans.drop 5).toString))
+      else none
+    match parsed with
+    | none => s!"SPECFAIL unexpected answer {impl}"
+    | some a =>
+      verdictQ d (fun g => match judgeFnc g s a (bf == "err") with | .ok => none | .fail why => some why)
+        (fun v => showFnc (findNegativeCycle v s) ++ "|" ++ (if (bellmanFord v s).isSome then "ok" else "err")) impl
+  | _ => s!"SPECFAIL malformed answer {impl}"
+
 def step (d : DState) (req : List String) (impl : String) : DState × String :=
   match req with
   | "case" :: k :: _ => ({}, s!"case {k}")
@@ -228,23 +348,29 @@ def step (d : DState) (req : List String) (impl : String) : DState × String :=
     | none => (d, "SPECFAIL unparsable graph line")
     | some v =>
       if !wfB v.g then
-        ({ v := v, ok := false }, "SPECFAIL side condition WellFormed does not hold: duplicate node or edge endpoint outside the node list")
-      else if !(viewArcsOkB v && viewArcsB v) then
-        ({ v := v, ok := false }, "SPECFAIL side condition ViewArcs does not hold: edge iteration of this encoding does not describe the abstract graph")
+        ({ v := v, ok := false, quirk := quirkOf req }, "SPECFAIL side condition WellFormed does not hold: duplicate node or edge endpoint outside the node list")
+      else if !((loopsTwice (quirkOf req) || viewArcsOkB v) && viewArcsB v) then
+        -- (`UndirectedAdaptor` lists a self-loop twice: its out-lists are compared as sets only)
+        ({ v := v, ok := false, quirk := quirkOf req }, "SPECFAIL side condition ViewArcs does not hold: edge iteration of this encoding does not describe the abstract graph")
       else if !nbB v then
-        ({ v := v, ok := false }, s!"SPECFAIL side condition node_count <= node_bound does not hold: {caseParams v}")
-      else ({ v := v, ok := true }, "ok")
+        ({ v := v, ok := false, quirk := quirkOf req }, s!"SPECFAIL side condition node_count <= node_bound does not hold: {caseParams v}")
+      else ({ v := v, ok := true, quirk := quirkOf req }, "ok")
   | ["bf", s] =>
     let s := s.toNat?.getD 0
     match preFloat d s with
     | some why => (d, why)
-    | none => (d, verdict (judgeSS d.v.g s impl) (showBF d.v (bellmanFord d.v s)) impl)
+    | none => (d, verdictQ d (fun g => judgeSS g s impl) (fun v => showBF v (bellmanFord v s)) impl)
+  | ["bf32", s] =>
+    let s := s.toNat?.getD 0
+    match preFloat32 d s with
+    | some why => (d, why)
+    | none => (d, verdictQ d (fun g => judgeSS g s impl) (fun v => showBF v (bellmanFord v s)) impl)
   | ["spfa", ty, s] =>
     let s := s.toNat?.getD 0
     let B := measOf ty
     match preSpfa d ty s with
     | some why => (d, why)
-    | none => (d, verdict (judgeSS d.v.g s impl) (showSP B d.v (spfa B d.v s)) impl)
+    | none => (d, verdictQ d (fun g => judgeSS g s impl) (fun v => showSP B v (spfa B v s)) impl)
   | ["fw", ty] =>
     let B := measOf ty
     match preFw d ty with
@@ -257,21 +383,18 @@ def step (d : DState) (req : List String) (impl : String) : DState × String :=
     | none => (d, verdict (judgeAP d.v.g true impl) (showFW B d.v true (floydWarshall B d.v)) impl)
   | ["fnc", s] =>
     let s := s.toNat?.getD 0
-    match preFloat d s, impl.splitOn "|" with
-    | some why, _ => (d, why)
-    | none, [ans, bf] =>
-      let parsed : Option (Option (List Nat)) :=
-        if ans == "none" then some none
-        else if ans.startsWith "some " then some (some (parseNats (ans.drop 5).toString))
-        else none
-      match parsed with
-      | none => (d, s!"SPECFAIL unexpected answer {impl}")
-      | some a =>
-        let model := showFnc (findNegativeCycle d.v s) ++ "|" ++ (if (bellmanFord d.v s).isSome then "ok" else "err")
-        match judgeFnc d.v.g s a (bf == "err") with
-        | .ok => (d, cmpExact model impl)
-        | .fail why => (d, s!"SPECFAIL {why}")
-    | none, _ => (d, s!"SPECFAIL malformed answer {impl}")
+    match preFloat d s with
+    | some why => (d, why)
+    | none => (d, answerFnc d s impl)
+  | ["fnc32", s] =>
+    let s := s.toNat?.getD 0
+    match preFloat32 d s with
+    | some why => (d, why)
+    | none => (d, answerFnc d s impl)
+  | ["consts", ty] => (d, judgeConsts ty impl)
+  | ["oadd", ty, a, b] => (d, judgeOadd ty a b impl)
+  | "law" :: name =>
+    (d, if impl == "ok" then "ok" else s!"SPECFAIL law {String.intercalate " " name} does not hold: {impl}")
   | _ => (d, s!"SPECFAIL bad request {req}")
 
 end PetgraphModel.C11
